@@ -83,6 +83,9 @@ def _extract():
                           (r'update->flash_awo\s*\+=\s*update->buff_pos\s*;\s*update->buff_pos\s*=\s*0\s*;', 'flash_awo += buff_pos; buff_pos = 0')):
             if not re.search(pat, fw): errs.append('flash_write: %s changed' % what)
     if not dc: errs.append('supla_esp_update_disconnect_cb not found')
+    rc = _func(src_nc, 'supla_esp_update_reconnect_cb')
+    if not rc or not re.fullmatch(r'\{\s*supla_esp_update_disconnect_cb\s*\(\s*arg\s*\)\s*;\s*\}', rc):
+        errs.append('supla_esp_update_reconnect_cb is no longer just `supla_esp_update_disconnect_cb(arg);` (code-dependent exit?)')
     # --- footer / signature layout in verify_and_reboot
     v = _func(src_nc, 'supla_esp_update_verify_and_reboot')
     if not v: errs.append('supla_esp_update_verify_and_reboot not found')
